@@ -198,6 +198,8 @@ structure Reader where
   rest : List Str
   pos : Nat := 0
   escaped : Option Nat := none
+  /-- end line indexes of the nested line-macro expansions enclosing the cursor, innermost first -/
+  expansions : List Nat := []
 deriving Repr, DecidableEq, Inhabited
 
 /-- The writer buffer, most recent chunk first. -/
